@@ -68,8 +68,131 @@ CLAIMED.update({
             "FS only; SET_LINE_CODING in its valid form only.", "DESIGN.md §6 C57"),
 })
 
+CLAIMED.update({
+    "C01": ("Hypothesis UTMI receive histories + sharded enumeration of token words vs. reference parser with bit-serial CRC5 (pysim)",
+            "8e3 (quick) / 3e5 (thorough) packet histories with per-packet device address and byte timing; every 16-bit word for IN and SOF and every CRC-valid word for OUT/SETUP/PING with equal and one-bit-different address in quick, all five PIDs x 2^16 in thorough; number and fields of new_token/new_frame strobes per packet compared with the reference. Exhaustive over 3-byte token packets at fixed minimal timing; not over timing or addresses.",
+            "Assumes UTMI soundness rules (rx_valid=>rx_active, >=1 lead cycle, >=2 idle cycles) and an address that changes only between packets.", "DESIGN.md §6 C01"),
+    "C02": ("Hypothesis UTMI packet histories into USBDataPacketReceiver (standalone and device.py-style CRC/timer wiring) vs. reference parser with bit-serial CRC16 (pysim)",
+            "1e4 / 1.5e5 histories of good, CRC-corrupted, short, bad-PID and non-data packets with byte gaps; streamed bytes, packet_complete/crc_mismatch/packet_id/ready_for_response counts per packet compared with the reference.",
+            "Assumes >=12 idle cycles between packets; no timing bound asserted on ready_for_response; nothing asserted on the mismatch strobe for packets shorter than a CRC or with non-data PIDs.", "DESIGN.md §6 C02"),
+    "C03": ("Hypothesis payload/PID/tx_ready-stall schedules through USBDataPacketGenerator+CRC (device.py wiring, and a real USBDevice via a logic-free endpoint) vs. reference framing (pysim, closed-loop producer)",
+            "1.5e4 / 2e5 cases of 1..6 packets (0..70 bytes, ZLP requests, 4 PIDs) under cyclic stall patterns up to 24 cycles; accepted UTMI bytes per packet and number of stream bytes consumed compared with PID|payload|CRC16.",
+            "Requests are issued only while the transmitter is idle; producer obeys the USBInStream hold rule.", "DESIGN.md §6 C03"),
+    "C04": ("Hypothesis per-cycle request/tx_ready vectors into USBHandshakeGenerator and UTMI packet histories into USBHandshakeDetector vs. trace oracles (pysim)",
+            "1e4+1e4 / 1e5+1e5 cases; generator: each idle request -> exactly one held single-byte packet with the right PID byte, busy requests ignored; detector: exactly one strobe on the right line per well-formed one-byte handshake, none otherwise.",
+            "One request kind per cycle; request-to-packet latency not asserted.", "DESIGN.md §6 C04"),
+    "C05": ("Hypothesis start/speed/wait schedules on USBInterpacketTimer (3 builds, 2 interfaces) vs. delay table entered from the statement (pysim, per-cycle)",
+            "5e3 / 8e4 schedules (restarts, waits around every table value, silences to 700 cycles, mid-wait speed switches, from-reset); every strobe of both interfaces compared every cycle.",
+            "6.5-bit deadline may round either way (32|33, 6|7) but must strobe exactly once; fs_only builds asserted at FS only.", "DESIGN.md §6 C05"),
+    "C06": ("Hypothesis wire histories (tokens, good/corrupt/short data, foreign traffic) ending in a valid SETUP into USBSetupDecoder(standalone) at FS and HS vs. reference scan (pysim)",
+            "8e3 / 1e5 histories; own SETUP token immediately followed by CRC-valid 8-byte DATA0 must give exactly one received strobe with all fields and one ack no earlier than the gap; no report outside a pending own SETUP.",
+            "SETUP followed by unrelated packets and then valid data, and DATA1/2 after SETUP, are not judged (statement ambiguous).", "DESIGN.md §6 C06"),
+    "C21": ("Hypothesis SOF number sequences interleaved with corrupted SOFs and other packets into a real USBDevice (no endpoints) vs. model from the statement (pysim)",
+            "8e3 / 8e4 histories with repeats (runs up to 8), increments, skips, wraps, jumps; frame_number, microframe_number and new_frame strobes checked per packet, no transient values.",
+            "Runs of identical numbers capped at 8 (no microframe wrap); sof_detected not asserted; bare-UTMI (FS wiring) device.", "DESIGN.md §6 C21"),
+    "C28": ("Hypothesis raw OUT-stream packets with strobe placement into USBOutStreamBoundaryDetector vs. trace oracle (pysim)",
+            "1.5e4 / 1.5e5 cases of 1..10 packets (0..40 bytes, gaps, lead/trail); processed bytes, first/last placement and complete_out/invalid_out (exactly once, after the last byte, only when requested) checked per packet.",
+            "Input shaped as USBDataPacketReceiver produces it; zero-length packets and a strobe in the first-byte cycle not judged.", "DESIGN.md §6 C28"),
+    "C31": ("Hypothesis word/stall/hold schedules vs. bit-serial reference LFSR (pysim); exhaustive LFSR state walk; scramble->descramble round trip",
+            "All 65535 non-zero LFSR states enumerated; 1.3e4 (quick) / 2e5 (thorough) schedules on Scrambler/Descrambler (4 initial values) judged every cycle against a keystream position derived from the statement, plus round trips with independent stall schedules.",
+            "Hold is never generated over a COM-first word; clear only in not-valid cycles; producer keeps a stalled word stable.", "DESIGN.md §6 C31"),
+    "C32": ("Hypothesis word histories vs. symbol-stream reference (input minus SKPs) on CTCSkipRemover (pysim)",
+            "1.5e4 (quick) / 2e5 (thorough) word histories with K28.1 at every subset of byte positions, all-SKP runs, D28.1 look-alikes and not-valid words; output symbol stream compared with the filtered input after a flush tail.",
+            "source.ready held at 1 as in the physical layer; latency not asserted.", "DESIGN.md §6 C32"),
+    "C33": ("Hypothesis burst/idle link streams vs. reference keystream + SKP-debt model on Scrambler+CTCSkipInserter and on the real USB3PhysicalLayer (stub PIPE PHY); can_send_skp invariant on the real USB3LinkLayer under LTSSM/TS/compliance traffic (pysim)",
+            "2e3 (quick) / 5e4 (thorough) link streams of up to ~3000 words judged word by word (only filler replaced, nothing lost or reordered, keystream frozen over SKPs, SKP pairs sent iff >=2 sets owed at 1 per 354 symbols +-1 word); 160 / 5e3 LTSSM event schedules on USB3LinkLayer checking can_send_skp => valid logical idle.",
+            "can_send_skp exactly on filler; backlog kept below the 3-bit counter's wrap; first two words after reset not judged; arbiter inputs not observable (visible consequence checked); no U0 packet traffic through the link layer.", "DESIGN.md §6 C33"),
+    "C34": ("Hypothesis symbol streams built by construction vs. re-chunking reference on RxWordAligner/RxPacketAligner (pysim)",
+            "1e4 (quick) / 1.5e5 (thorough) streams with alignment sequences at all four byte offsets, offset changes, look-alikes and not-valid words; every valid output word and alignment_offset compared with the input cut into 4-symbol words from the last sequence.",
+            "Sequences are exactly four COMs (runs of >=5 have no unique alignment); first word after reset not judged.", "DESIGN.md §6 C34"),
+    "C42": ("Hypothesis burst/period envelopes around every window edge on LFPSDetector (polling 125/25/33 MHz, reset 100/10 kHz, synthetic patterns, ping 12.5 MHz) and generate schedules on LFPSGenerator, event-list simulation with change-driven sampling (pysim); enumerated full-length ping repeats",
+            "2.6e3 (quick) / 4e4 (thorough) envelopes judged for required and forbidden detect strobes with exact cycle windows (one-cycle quantisation band unasserted); 2 (quick) / 144 (thorough) real 2-3 M-cycle ping repeats on the window edges; 5e2 / 8e3 generator schedules.",
+            "Envelope synchronous to the ss clock; detection expected after two in-window bursts and repeats (detector's documented behaviour); ping real-window cases are few because each costs 4-9 M cycles; LFPSTransceiver wiring not exercised.", "DESIGN.md §6 C42"),
+    "C43": ("Hypothesis start/ready/request schedules vs. cycle model with specification symbols on TSEmitter; Hypothesis word streams vs. left-to-right set parser on TSBurstDetector (pysim)",
+            "4e3/8e3 (quick), 5e4/1e5 (thorough) cases over 10 emitter and 12 detector configurations (TS1, TS2+config, TSEQ, inverted TS1; burst 1..20, threshold 1..10); exact burst length, symbols, config bits and done placement; exactly one detection per N consecutive well-formed sets with idle gaps allowed, none otherwise.",
+            "Well-formed = symbol 4 zero and reserved bits zero; idle gap = not-valid words; real TSEQ burst length 65536 / threshold 32 not built.", "DESIGN.md §6 C43"),
+    "C47": ("property-based: header-queue histories + enumerated bit patterns vs. reference ITP decode (pysim)",
+            "1e4 / 1.5e5 histories into TimestampPacketReceiver over all 27 payload bits plus 39 enumerated walking-one / field-boundary cases; counter, delta and the update strobe compared; strobes without an ITP flagged.",
+            "Unit level (not inside the full protocol layer); output latency 1 (or uniformly 2) cycles accepted.", "DESIGN.md §6 C47"),
+    "C45": ("property-based: closed-loop request histories vs. specification-derived transaction-packet decoder (pysim)",
+            "1e4 / 1.5e5 histories on TransactionPacketGenerator (one request kind per strobe, held strobes, queue ready delays, fields changing after the request); exactly one header per request with subtype and latched fields.",
+            "Two send_* strobes in one cycle not generated; retry flag / sequence compared only in ACK TPs; endpoint numbers 0..15.", "DESIGN.md §6 C45"),
+    "C48": ("property-based: link-receiver-shaped packet sequences into SuperSpeedSetupDecoder; descriptor request sequences vs. byte-exact model on the usb3 GetDescriptorHandler (pysim)",
+            "1.2e4+6e3 / 2e5+8e4 cases; report iff good & setup & exactly 8 bytes with equal fields; descriptor prefix, tx_length, stall for unknown descriptors under ready patterns.",
+            "6 fixed descriptor collections (elaboration cost); complete single-packet responses only; wLength=0 asserted only to produce no data and no stall.", "DESIGN.md §6 C48"),
+    "C46": ("model-based property test: closed-loop host / TP-generator / packet-transmitter BFM, reference packetisation, event-log oracle (pysim)",
+            "4.8e3 / 8e4 histories on SuperSpeedStreamInEndpoint (mps 16/32/64/1024): IN requests, ack-and-continue/stop, retries, NRDY/ERDY flow control, stray TPs, transmitter back-pressure; data/NRDY/ERDY, sequence numbers, retry identity, exactly-once stream with short/ZLP ends.",
+            "Legal non-bursting host (NumP<=1); ep_reset not exercised; a host that polls during flow control not modelled.", "DESIGN.md §6 C46"),
+    "C41": ("property-based: event-list histories (cooperative partner scripts incl. one-step-omitted negatives + adversarial pulses) with I/O-history monitors (pysim)",
+            "1.5e3 / 2.5e4 histories on LTSSMController at 50 kHz (12 ms/2 ms/360 ms = 600/100/18000 cycles), both loosen_requirements; link_ready preconditions since last reset / last polling-recovery-hot-reset entry, reset removes link_ready, per-substate timeouts <= timeout+1 cycles, scrambling in U0.",
+            "Monitors read ports only (no FSM state); TS2 phases timed until the first completion; power_on_reset port is unused by the DUT (reset = in_usb_reset); compliance/loopback not covered.", "DESIGN.md §6 C41"),
+    "C50": ("Hypothesis SPI-host waveforms (word_size 1..24 x CPOL x CPHA x bit order x CS polarity, multi-word / multi-CS / partial words, SCK jitter) vs. host-side bit bookkeeping (pysim)",
+            "1e4 (quick) / 1.5e5 (thorough) transactions; every word_complete strobe + word_in, and in CPHA=1 modes every SDO bit at the host's sample edges, compared with what the host sent / was promised.",
+            "Pins synchronous to the DUT clock with >=1 cycle setup/hold; word_out changes only between latch points; LSB-first transmit asserted for msb_first=False.", "DESIGN.md §6 C50"),
+    "C51": ("Hypothesis SPI transaction histories (reads/writes, assigned/neighbour/foreign addresses, CS aborts at any clock incl. mid-bit, extra clocks) on 8 register maps vs. register-file model (pysim)",
+            "6e3 / 8e4 histories of 1..6 transactions; SDO at the host's sample edges, every memory register every cycle, write strobes per register per transaction compared with the model.",
+            "SCK phases >=3 cycles, CS high >=4 cycles, SDI hold >=1 cycle, read-side signals stable while CS asserted.", "DESIGN.md §6 C51"),
+    "C52": ("Hypothesis I2C message sequences on an open-drain bus model with an autonomous target BFM (ACK/NAK, read data, clock stretching) vs. wire-level protocol decoder (pysim)",
+            "5e3 / 8e4 messages on 13 configurations; START/STOP events, 9 pulses per byte, bit values, ack_o/data_o/driven ACK, SDA stability while SCL high and no drive change while idle.",
+            "Well-formed messages only; operations strobed only after busy was seen low; target changes SDA only while SCL low.", "DESIGN.md §6 C52"),
+    "C53": ("Hypothesis transaction histories against a HyperRAM memory BFM (RWDS behaviours, both clock-phase alignments, gaps, PHY delay) vs. HyperBus CA reference + phase/contention invariants (pysim)",
+            "1e4 / 1.5e5 histories of 1..4 transactions; CA words, CS shape, write-latency lower bound, read words, DQ/RWDS enables per cycle.",
+            "Fixed 2x-latency memory model (first read data at bus clock 17, write lower bound 16: an off-by-one latency would not be caught); start_transfer raised only after idle was seen.", "DESIGN.md §6 C53"),
+    "C25": ("Hypothesis TX byte sequences / RX line packets (4x oversampled, every phase, drift slips, stuffing violations, op_mode, pull controls) vs. independent FS line encoder/decoder (NRZI, bit stuffing, SYNC/EOP) on 8 configurations (pysim, 12+48 MHz)",
+            "5e3 / 8e4 event sequences; driven D+/D- samples compared symbol-for-symbol with the reference encoding, rx_active/rx_valid/rx_data framing at usb clock edges, rx_error for violations, no drive in op_mode 1, pull outputs every cycle.",
+            "usb = usb_io/4 generated in the bench; registered UTMI producer, tx_data don't-care while idle; first bytes starting with five 1s excluded (stuffing there depends on whether SYNC's last 1 counts); drift as sample slips only; rx_error on good packets not asserted.", "DESIGN.md §6 C25"),
+    "C22": ("Hypothesis PHY-side event lists through a ULPI 1.1 PHY bus-functional model into UTMITranslator (and ULPIRegisterWindow+ULPIRxEventDecoder for register reads); oracle computed from the recorded DIR/NXT/DATA wire trace",
+            "1e4 (quick) / 1.3e5 (thorough) PHY histories (RxCmds, DIR+NXT and RxCmd-started receives, NXT throttling, mid-packet RxCmds, aborts, back-to-back, register reads with chained RxCmds, 1 in 4 with concurrent register writes/transmissions); UTMI bytes, packet grouping, rx_active and line-state/VBUS flags compared with the wire trace.",
+            "PHY obeys ULPI 1.1 as modelled in bfm/g7_ulpi_phy.py; 'follows' judged with 1..2 cycles latency; reads not aborted after acceptance.", "DESIGN.md §6 C22"),
+    "C23": ("Hypothesis UTMI transmit requests + PHY NXT/DIR schedules through the ULPI PHY BFM; oracle from what the PHY accepted",
+            "6e3 / 8e4 cases of 1..40-byte packets, op_mode 0/2, NXT delay patterns, DIR bursts before and in the acceptance cycle of the transmit command; command byte, data bytes, STP cycle and data, tx_ready == PHY acceptance, data.oe low whenever DIR is high.",
+            "Control inputs constant per case and start-up writes settled; PHY never raises DIR between command acceptance and STP.", "DESIGN.md §6 C23"),
+    "C24": ("Hypothesis schedules of control-input changes, transmissions and PHY DIR/NXT behaviour through the ULPI PHY BFM with a register file",
+            "4e3 / 6e4 event lists aimed at every phase of an in-flight register write and at transmission starts; every committed write must address 0x04/0x0A with a value requested during the write; after K=64+8*maxdelay quiet cycles the PHY's Function/OTG Control equal the requested composites; no transmission or write blocked within the cap.",
+            "Bounded liveness only (explicit K and cycle cap); both PHY readings of a DIR rise in the STP cycle are generated.", "DESIGN.md §6 C24"),
+    "C19": ("Hypothesis line-state event lists (durations a few cycles either side of every threshold, chirp trains, VBUS/disconnect/restriction/bus_busy) driven with tick().repeat, outputs sampled on change; oracle = necessary conditions computed from the input history",
+            "48+1000 (quick) / 3e3+6e4 (thorough) histories on the shipped constants and on a subclass with all _CYCLES_* / 20; every bus_reset cycle, suspend entry, high-speed entry, chirp start, restriction while at HS and handshake duration judged against the statement's times.",
+            "Only 'only-after / never / within' conditions are asserted; the scaled run checks FSM logic, not constants.", "DESIGN.md §6 C19"),
+})
+
+CLAIMED.update({
+    "C30": ("Exhaustive enumeration (both CRC5s over 2^11 inputs; 65 536 tokens through USBTokenDetector) + affine-basis and Hypothesis samples of the six parallel CRC step functions in a comb wrapper + module walks, all against one bit-serial LFSR reference (pysim)",
+            "CRC5 functions and token acceptance exhaustive; USB2 CRC16 step 2^21/2^24 pairs quick, all 2^24 thorough; 16x32/32x{8,16,24,32} steps: basis + 2e5 (quick) / 5e6 (thorough) random pairs; 6e3 / 1.2e5 module walks of 1..64 steps compared every cycle incl. reflection/inversion and next_crc look-aheads. Finds any wrong tap and non-affine faults with trigger probability >~1e-5; does not establish absence for the wide steps.",
+            "Reference self-checked against USB2 spec vectors, the recorded USB3 headers and zlib.crc32. At most one of clear/advance_* per cycle for the USB3 modules; start together with rx_valid (start wins) for USB2, as callers do.", "DESIGN.md §6 C30"),
+    "C27": ("Hypothesis start/max_length/ready schedules on 39 ConstantStreamGenerator and 9 StreamSerializer configurations vs. slice arithmetic on the constant (pysim, closed-loop consumer)",
+            "1.75e4 (quick) / 2.4e5 (thorough) cases of 1..3 start requests each (start word, max_length 0..len+10, garbage while idle, stalls incl. on the last word, immediate restarts); accepted words, per-byte valid masks, first/last, hold-stability, single done pulse and output_length compared with data[start:][:max_length].",
+            "start only while idle; start_position within the data (in words) and held with max_length until done; big-endian partial words read from the highest valid lane down; a failure to elaborate the default (no max_length_width) configuration is reported as a violation with its own signature.", "DESIGN.md §6 C27"),
+    "C26": ("Hypothesis per-input burst schedules (valid-hold producers) and consumer ready patterns on 11 arbiter configurations; per-cycle candidate-selection oracle + end-to-end delivery (pysim, closed loop)",
+            "2.3e4 (quick) / 3.4e5 (thorough) histories on StreamArbiter x1..4, SuperSpeedStreamArbiter x2/x4, HeaderQueueArbiter x1..3 and a 4-lane-valid StreamArbiter x2..3; every cycle some selected input must explain source and all ready outputs, the selection may not leave an input whose valid is held and must move to the lowest-index waiting input, idle == no input valid, accepted == delivered, bursts not interleaved.",
+            "Producers hold valid/payload until ready; nothing assumed about the selection after reset or while all inputs are idle; multi-lane valid counts as offering while non-zero.", "DESIGN.md §6 C26"),
+    "C55": ("Hypothesis strobe waveforms on 88 stretch_strobe_signal configurations vs. sliding-window OR (pysim)",
+            "1e4 / 1e5 waveforms (runs around to_cycles, re-triggers, widened strobes) for to_cycles 1..40, allow_delay on/off, internal or caller-provided output/domain; output compared every cycle with the OR of the strobe over the last to_cycles cycles (shifted by 0 or 1, consistently, when delay is allowed).",
+            "Strobe synchronous to the stretcher's domain; allow_delay permits but does not require the one-cycle shift.", "DESIGN.md §6 C55"),
+    "C54": ("Hypothesis configurations (8 clock frequencies x reset/stop lengths 1..300, power-on on/off) and trigger waveforms on PHYResetController; pulse-train parser oracle (pysim)",
+            "5e3 / 6e4 cases, each a freshly elaborated configuration with 0..4 trigger events (idle, during reset, during stop, straddling the end; pulses and levels); every phy_stop pulse must be exactly R+S cycles with phy_reset high in exactly its first R, start only at power-on or <=2 cycles after an idle trigger, every idle trigger must start one, and the controller must be idle R+S cycles later.",
+            "'Always finishes' decided in bounded form (R+S+4 cycles); triggers while busy must not disturb the running sequence.", "DESIGN.md §6 C54"),
+    "C56": ("Hypothesis input waveforms / trigger schedules / read-back orders on 75 IntegratedLogicAnalyzer configurations vs. the recorded input history (pysim)",
+            "6e3 / 6e4 cases (depth 1..70, pretrigger 0..4, 1..2 captures, triggers 1..3 cycles wide plus extra triggers inside the capture, full read-back while inputs keep changing); the read-back must equal depth consecutive input values starting at T-pretrigger or T-pretrigger+1 (one reading for the whole capture, nothing else), complete low during and high after the capture.",
+            "Pre-simulation inputs are 0; read address held two cycles; new captures requested only >=2 cycles after completion; 'sampling' not asserted.", "DESIGN.md §6 C56"),
+    "C49": ("Hypothesis byte/word lists with per-item spacing on 40 UARTTransmitter and 24 UARTMultibyteTransmitter configurations; cycle-accurate 8N1 line decoder oracle (pysim, closed-loop producer)",
+            "7e3 / 7e4 cases (divisor 1..40, widths 1..4, items already waiting / arriving within +-3 cycles of the frame end / late); tx checked every cycle: frames of exactly 10*divisor cycles, idle high, frame bytes == accepted bytes little-endian in order, and no item accepted while an earlier byte still waits for its frame.",
+            "Producer holds valid/payload until ready; idle/driving outputs not asserted.", "DESIGN.md §6 C49"),
+    "C29": ("Hypothesis word streams and byte-side ready patterns on USBMultibyteStreamInEndpoint (byte_width 1..8) with the inner byte endpoint stubbed at elaboration (mock.patch, no source change), plus a run with the real inner endpoint drained by a minimal host (pysim, closed loop)",
+            "9.5e3 / 1.15e5 cases; bytes taken by the byte endpoint must equal the accepted words' little-endian bytes once each with first/last only on a flagged word's first/final byte, and a word may be accepted only when all earlier bytes have been taken; with the real inner endpoint additionally the concatenated host packets equal those bytes.",
+            "Word producer holds valid until ready; first/last judged in the acceptance cycle; packetisation/retries are C11, the host always ACKs.", "DESIGN.md §6 C29"),
+    "C37": ("model-based closed-loop PBT: legal link-partner BFM + reference acceptance model (pysim)",
+            "6e3/1e5 histories of 3-24 partner actions: corrupted headers, LBAD/LRTY/retransmission cycles, wrong-sequence header, queue/source stalls, request strobes; LGOOD/queue/LBAD/LCRD/recovery judged against the model, credits+buffered <= 4 every cycle.",
+            "Partner with >4 headers in flight not generated (illegal); buffer_count 4 only.", "DESIGN.md §6 C37"),
+    "C38": ("Hypothesis crash-point histories: two-pass schedule-targeted link-down/reset into a closed-loop partner BFM (pysim)",
+            "6e3/1e5 histories; link taken down at the dispatch/generate/first/last cycle of every command kind, 3 link-down modes (disable, warm reset, hot reset), traffic and corrupted headers while down; advertisement (LGOOD last-received, LCRD A-D), empty queue and C37's rules after re-entry.",
+            "Commands completed while the link is down are not judged; headers arriving at the edge are judged by consistency.", "DESIGN.md §6 C38"),
+    "C39": ("model-based closed-loop PBT: partner-receiver/protocol-layer BFM + go-back-N reference model over the reference-parsed wire (pysim)",
+            "5e3/8e4 histories of 2-24 headers with corrupted transmissions and retransmissions, LBAD-aimed queue timing, credit starvation, mismatched LGOOD/LCRD and link re-entries; credits, numbering, order/content, retransmission set with DL before anything new, bounded liveness.",
+            "Payload streaming, the 5 ms credit timeout and retirement after a mismatched LGOOD (unobservable: the link leaves U0) not covered.", "DESIGN.md §6 C39"),
+})
+
 # Only checks listed here are claimed in MANIFEST.json (verified quiet on the current tree, sensitive to their mutants).
-READY = ["C18"]
+READY = [f"C{i:02d}" for i in range(1, 58)]
 
 NOT_BUILT_REASON = "check not built yet (work in progress; see DESIGN.md §6 for the planned generator/oracle)"
 
